@@ -16,7 +16,10 @@ def run(ck):
         ck.violation('tie_broken', 'scenario driver does not build', dict(), False); return
     bases = [dict(w=256, h=192, n=12, decode=0, content=2, **{'f:enc_mode': 8}),
              dict(w=320, h=256, n=8, decode=0, content=1, **{'f:enc_mode': 8, 'f:qp': 35, 'f:tile_rows': 1}),
-             dict(w=200, h=136, n=14, decode=0, content=5, **{'f:enc_mode': 8, 'f:screen_content_mode': 1, 'f:hierarchical_levels': 3})]
+             dict(w=200, h=136, n=14, decode=0, content=5, **{'f:enc_mode': 8, 'f:screen_content_mode': 1, 'f:hierarchical_levels': 3}),
+             # the stages that are off at preset 8 (restoration search, more reference pictures, temporal filtering of more layers): more
+             # pictures than worker threads, so that per-thread context and recycled picture control sets are reused across pictures
+             dict(w=192, h=128, n=16, decode=0, content=2, **{'f:enc_mode': 6, 'f:logical_processors': 4}), dict(w=128, h=128, n=20, decode=0, content=8, **{'f:enc_mode': 4, 'f:logical_processors': 3})]
     if ck.tier == 'thorough':
         bases += [dict(w=384, h=256, n=16, decode=0, content=c, **{'f:enc_mode': p}) for c in (0, 1, 2) for p in (6, 8)]
     nseeds = 6 if ck.tier == 'quick' else 24
@@ -26,7 +29,7 @@ def run(ck):
     rcb = [dict(w=256, h=192, n=20, decode=0, content=2, **{'f:enc_mode': 8, 'f:rate_control_mode': rc, 'f:target_bit_rate': 300000}) for rc in (1, 2)]
     meta.compare(ck, binp, stamp, rcb, variants[:4], 'schedule_seed_rate_control', timeout=300, jobs=6, repeat_on_diff=False, sig_prefix='rc_differs')
     ck.cov['traces_validated_against_impl'] = (n + len(rcb)) * len(variants)
-    ck.cov['rule'] = '3 inputs x (unperturbed + %d perturbation seeds), CQP; plus one-pass VBR / CVBR under 3 seeds (known schedule dependence)' % nseeds
+    ck.cov['rule'] = '5 inputs (presets 8, 6, 4) x (unperturbed + %d perturbation seeds), CQP; plus one-pass VBR / CVBR under 3 seeds (known schedule dependence)' % nseeds
     ck.sample(dict(base=e2e.describe(bases[0]), seeds=[v[0] for v in variants]))
     br = ck.broken_obligations()
     if br and not ck.violations:
